@@ -12,6 +12,7 @@ the emitted converter / endpoint method; Trace_EnumPipe (TLC) judges every scena
 from __future__ import annotations
 
 import json
+import os
 import re
 from typing import Any
 
@@ -87,12 +88,13 @@ def observe(chk: core.Check, scen: list[dict[str, Any]]) -> list[dict[str, Any]]
     ok = {r["id"] for r in gres if r["ok"]}
     ores = core.parallel_py(chk.scratch, "harness.w_obs", [j for j in ojobs if j["id"] in ok], nproc=min(10, core.NCPU), env={"VERIF_OBS_EXTRA": "harness.obs_x06"})
     by = {r["id"]: r for r in ores}
+    gby = {r["id"]: r for r in gres}
     out = []
     for i, s in enumerate(scen):
         runs = []
         for k in range(len(s["perms"])):
             jid = f"{i}.{k}"
-            g = gres[[j["id"] for j in gjobs].index(jid)] if False else next(r for r in gres if r["id"] == jid)
+            g = gby[jid]
             if jid in by and "observer_error" not in by[jid]["x06"]:
                 o = by[jid]["x06"]
                 runs.append({"gen": "ok", **o})
@@ -132,7 +134,7 @@ def mem_string(s: str) -> str:
 def mem_int(v: Any) -> str:
     import keyword
 
-    if not isinstance(v, (str, int)) or isinstance(v, bool) and False:
+    if not isinstance(v, (str, int)):
         return "E"
     base = str(v).upper().replace("-", "_").replace(" ", "_").replace(".", "_DOT_")
     name = "".join(c for c in base if c in "ABCDEFGHIJKLMNOPQRSTUVWXYZ0123456789_")
@@ -449,9 +451,7 @@ def run(chk: core.Check) -> None:
     chk.require(by_gap.get("none", 0) >= 20 and len(by_gap) >= 8, f"the design run does not exercise both sides of Gap: {by_gap}")
     # (B)+(C) the real generator
     recs = observe(chk, scen)
-    import os
-
-    if os.environ.get("X06_DUMP"):
+    if os.environ.get("X06_DUMP"):  # debugging aid: the raw observations, one line per document
         with open(os.environ["X06_DUMP"], "w") as f:
             for r in recs:
                 f.write(json.dumps(r) + "\n")
